@@ -210,6 +210,10 @@ def requested_writers(run, F, E):
         if ('core', 'registry', 'requested') in direct or (fn.tkey == 'ffsm2::detail::Registry' and ('this', 'requested') in direct):
             ok = tk_short(fn) in allowed
             why = 'is an expected writer of registry.requested'
+            if not ok and fn.tkey == 'ffsm2::detail::Registry' and (fn.kind == 'ctor' or fn.m == 'operator=') and \
+                    all(p in (('this', 'active'), ('this', 'requested')) for p in direct):
+                ok = True        # the registry's own constructors / assignment initialise or copy a whole registry (C17.b / C01.g govern copies)
+                why = 'initialises / copies a whole registry object'
             if not ok and (anchors.is_internal_helper(F, fn) or (fn.cls is None and (fn.qn or '').startswith('ffsm2::detail::'))):
                 # a non-public helper (or a free function of namespace detail): fine when everything that can call it (transitively, through other helpers) is an expected writer
                 offenders = anchors.reached_only_from(F, E, fn, allowed)
